@@ -22,6 +22,13 @@ def ops_for(declared, flavour):
             out.append(("DL %s=[%s]" % (fresh[0], x), [decl(fresh[0], lit)], [fresh[0]]))
         if len(fresh) >= 2:
             out.append(("ML %s,%s=[%s]" % (fresh[0], fresh[1], x), [decl([fresh[0], fresh[1]], lit)], fresh[:2]))
+        # a literal that mentions x TWICE: both positions get their own copy (they are not each other's alias either)
+        lit2 = lst(var(x), var(x), num(3)) if flavour == "list" else dct(["a", "z", "c"], [var(x), num(3), var(x)])
+        if fresh:
+            out.append(("DLL %s=[%s,%s]" % (fresh[0], x, x), [decl(fresh[0], lit2)], [fresh[0]]))
+        for y in declared:
+            if x != y:
+                out.append(("SLL %s=[%s,%s]" % (y, x, x), [ex(asg(var(y), lit2))], []))
         for y in declared:
             if x != y:
                 out.append(("S %s=%s" % (y, x), [ex(asg(var(y), var(x)))], []))
@@ -121,6 +128,34 @@ def object_programs():
     add("const-decl-copies", prog([decl("A", lst(num(1))), decl("B", var("A"), const=True), ex(mcall(var("A"), "@append", num(2))), disp(var("A"), var("B")), ex(num(0))]))
     add("loop-var-copy-list", prog([decl("X", lst(lst(num(1), num(2)), lst(num(3)))), iter_(["V"], var("X"), [ex(asg(idx(var("V"), num(1)), num(9))), disp(var("V"))]), disp(var("X")), ex(num(0))]))
     add("loop-var-copy-dict", prog([decl("X", dct(["a"], [lst(num(1))])), iter_(["K", "V"], var("X"), [ex(mcall(var("V"), "@append", num(9))), disp(var("K"), var("V"))]), disp(var("X")), ex(num(0))]))
+    # NUMBER elements: a copied list / dictionary of plain values owns its numbers too - the in-place number methods 自增 / 自减 on an
+    # element of one never show through the other (every copy route x which side is changed)
+    def incr(path, m="@incr", by=10): return ex(mcall(path, m, num(by)))
+    A_, B_, C_ = var("A"), var("B"), var("C")
+    routes = {
+        "declare": [decl("B", A_)], "assign": [decl("B", lst()), ex(asg(B_, A_))], "multi-declare": [decl(["B", "C"], A_)], "const-declare": [decl("B", A_, const=True)],
+        "literal-mention": [decl("B", lst(A_, A_))], "element-assign": [decl("B", lst(num(0))), ex(asg(idx(B_, num(1)), A_))], "append": [decl("B", lst()), ex(mcall(B_, "@append", A_))],
+        "dict-value": [decl("B", dct(["k"], [A_]))], "put": [decl("B", dct([], [])), ex(mcall(B_, "@put", s("k"), A_))],
+    }
+    where = {"declare": lambda: idx(B_, num(1)), "assign": lambda: idx(B_, num(1)), "multi-declare": lambda: idx(C_, num(2)), "const-declare": lambda: idx(B_, num(1)),
+             "literal-mention": lambda: idx(idx(B_, num(2)), num(1)), "element-assign": lambda: idx(idx(B_, num(1)), num(2)), "append": lambda: idx(idx(B_, num(1)), num(1)),
+             "dict-value": lambda: idx(idx(B_, s("k")), num(1)), "put": lambda: idx(idx(B_, s("k")), num(2))}
+    for init_tag, init in (("flat", lambda: lst(num(1), num(2), num(3))), ("with-text", lambda: lst(num(1), num(2), s("t"))), ("nested", lambda: lst(num(1), num(2), lst(num(5))))):
+        for rn, rstmts in routes.items():
+            for side in ("copy", "original"):
+                for m in ("@incr", "@decr"):
+                    tgt = where[rn]() if side == "copy" else idx(A_, num(1 if rn not in ("multi-declare", "element-assign", "put") else 2))
+                    names = [A_, B_] + ([C_] if rn == "multi-declare" else [])
+                    add("number-elements:%s:%s:%s:%s" % (init_tag, rn, side, m), prog([decl("A", init())] + json_copy(rstmts) + [disp(*names), incr(tgt, m), disp(*names), incr(idx(A_, num(2)), m, 100), disp(*names), ex(num(0))]))
+    # dictionaries of numbers, loop variables
+    add("number-elements:dict", prog([decl("A", dct(["a", "b"], [num(1), num(2)])), decl("B", A_), incr(idx(B_, s("a"))), disp(A_, B_), incr(idx(A_, s("b")), "@decr"), disp(A_, B_), ex(num(0))]))
+    add("number-elements:loop-var", prog([decl("A", lst(lst(num(1), num(2)), lst(num(3)))), iter_(["V"], A_, [incr(idx(var("V"), num(1))), disp(var("V"))]), disp(A_), ex(num(0))]))
+    # the SAME collection mentioned several times in a literal / merged with itself, then copied: every position is its own value
+    for copy_tag, cp in (("declare", lambda: [decl("G", lst(var("R"), var("R"), var("R"))), decl("H", var("G"))]), ("direct", lambda: [decl("H", lst(var("R"), var("R"), var("R")))]),
+                         ("dict", lambda: [decl("G", dct(["p", "q"], [var("R"), var("R")])), decl("H", var("G"))])):
+        hk = (lambda k: idx(var("H"), s("pq"[k - 1]))) if copy_tag == "dict" else (lambda k: idx(var("H"), num(k)))
+        add("same-collection-twice:%s" % copy_tag, prog([decl("R", lst(num(0), num(0)))] + cp() + [ex(asg(idx(hk(1), num(1)), num(7))), disp(var("H"), var("R")), ex(mcall(hk(2), "@append", num(5))), disp(var("H"), var("R")),
+                                                                                                  decl("J", var("H")), ex(asg(idx(idx(var("J"), s("q") if copy_tag == "dict" else num(2)), num(2)), num(8))), disp(var("J"), var("H")), ex(num(0))]))
     # literals used DIRECTLY (no name in between) where they can be changed in place - as the receiver of a storing method, as an
     # argument of a method that changes its parameter, as the result of 输出 that the caller changes - executed repeatedly: every
     # execution of the literal is a new value, so every repetition shows the same thing
@@ -141,6 +176,11 @@ def object_programs():
             add("literal-direct:%s:%s:while" % (fname, cname), prog([decl("I", num(0)), while_(bin_("lt", var("I"), num(3)), [ex(asg(var("I"), bin_("add", var("I"), num(1))))] + body(var("I"))), ex(num(0))], funcs=fs))
             add("literal-direct:%s:%s:iterate" % (fname, cname), prog([iter_(["V"], lst(num(1), num(2), num(3)), body(var("V"))), ex(num(0))], funcs=fs))
     return P
+
+
+def json_copy(x):
+    import json
+    return json.loads(json.dumps(x))
 
 
 def run(ctx):
@@ -165,7 +205,7 @@ def run(ctx):
                rule="copy/mutate histories over names A..D starting from a nested list or a dictionary of lists: steps = declare-copy, multi-declare, assign, the same three with a literal that mentions a variable or with the result of a storing method (which yields its receiver / the stored value), "
                     "element/key assignment of a collection, 5 mutations through any name at nesting 1-2 (index/key assignment, 后增, 左移, 写入, 移除), "
                     "mutation through a 遍历 loop variable; every variable is displayed after every step. Exhaustive for <= %d steps, seeded random for 3-5 "
-                    "steps; plus object sharing / default-copy / literal-freshness programs. The ZnEval heap machine (deep copy on bind, reference "
+                    "steps; plus object sharing / default-copy / literal-freshness programs, NUMBER elements (9 copy routes x which side is changed by 自增 / 自减 x 3 element mixes), and one collection mentioned several times in a literal and then copied. The ZnEval heap machine (deep copy on bind, reference "
                     "objects; invariant FreshVars in every state) predicts every displayed snapshot" % ex_len, **stats)
     return cov, ["a list / dictionary handed to 后增 / 前增 / 写入 is stored as a copy (repo fix 52e2856; before it the methods aliased their argument and a collection could contain itself)",
                  "parameter passing and 得到 share the value with the caller (not demanded by the property; the spec shares them too)",
